@@ -6,9 +6,12 @@ package sim
 import (
 	"errors"
 	"io"
+	"net"
+	"os"
 	"runtime"
 	"sync"
 	"sync/atomic"
+	"syscall"
 	"time"
 
 	"github.com/pion/stun/v3"
@@ -73,6 +76,7 @@ type Conn struct {
 	failID     map[[12]byte]int // fail the next n writes carrying this transaction id
 	failAll    int              // fail the next n writes whatever they carry
 	readErrs   int              // make the next n Reads fail (without closing)
+	readErrSeq int
 
 	// gates (nil in deterministic mode)
 	OnWrite func(b []byte)
@@ -111,9 +115,17 @@ func (c *Conn) Read(p []byte) (int, error) {
 	}
 	if c.readErrs > 0 && len(c.queue) == 0 {
 		c.readErrs--
+		c.readErrSeq++
 		c.cond.Broadcast()
-
-		return 0, io.ErrNoProgress
+		// transient errors of the kinds a UDP socket produces, in rotation
+		switch c.readErrSeq % 3 {
+		case 0:
+			return 0, &net.OpError{Op: "read", Net: "udp", Err: syscall.ECONNREFUSED} // ICMP port unreachable
+		case 1:
+			return 0, io.ErrNoProgress
+		default:
+			return 0, &net.OpError{Op: "read", Net: "udp", Err: os.ErrDeadlineExceeded} // read deadline
+		}
 	}
 	d := c.queue[0]
 	c.queue = c.queue[1:]
